@@ -553,3 +553,15 @@ def c05_canary():
     o["name"] = "C05.canary.order_s4_must_differ"
     o["kind"] = "canary"
     return [o]
+
+
+def free_coherence(**kw):
+    """C08.free.*: the free-projection path keeps (walkers, norms, overlaps) coherent: after propagate_free the cached overlap equals
+    overlap(stored orthonormal walkers) x norms with norms' = norms x det R_up x det R_dn, i.e. the overlap of the un-normalised walker that the
+    block estimator weights with.  Same contract as C05.fp.norm / fp.overlap (shape-bounded, kind bounded), claimed under C08 for the free path."""
+    out = []
+    for o in free_bookkeeping(**kw):
+        o = dict(o)
+        o["name"] = o["name"].replace("C05.fp.", "C08.free.")
+        out.append(o)
+    return out
